@@ -77,6 +77,16 @@ func (c *checker) use(name string) {
 	c.errf("$%s is not bound", name)
 }
 
+// isLoopVar reports whether the innermost binding of the name is a loop variable.
+func (c *checker) isLoopVar(name string) bool {
+	for i := len(c.scope) - 1; i >= 0; i-- {
+		if c.scope[i].name == name {
+			return c.scope[i].kind == "loop"
+		}
+	}
+	return false
+}
+
 func (c *checker) expr(e Expr) {
 	switch e := e.(type) {
 	case nil, *Lit, *Global:
@@ -99,6 +109,13 @@ func (c *checker) expr(e Expr) {
 		c.expr(e.A)
 		c.expr(e.B)
 	case *Call:
+		if (e.Fn == "index" || e.Fn == "isFirst" || e.Fn == "isLast") && len(e.Args) == 1 {
+			// these read the state of a loop: the argument has to be the variable of an enclosing loop
+			dr, ok := e.Args[0].(*DataRef)
+			if !ok || len(dr.Acc) > 0 || !c.isLoopVar(dr.Name) {
+				c.errf("%s() is not applied to the variable of an enclosing loop", e.Fn)
+			}
+		}
 		for _, a := range e.Args {
 			c.expr(a)
 		}
